@@ -362,6 +362,10 @@ def collect(ctx, results, props, harness="pipe"):
                 cmd = l.split()[2] if len(l.split()) > 2 else "?"
                 if set(CMD_PROPS.get(cmd, [])) & set(props):
                     ctx.problem("mismatch", l[:600], **rep)
+            elif l.startswith("PROPFAIL["):
+                tag = l[9:12]
+                if tag in props:
+                    ctx.problem("propfail", l[:600], signature=tag + ":" + " ".join(l.split()[2:5]), **rep)
             elif l.startswith("SUMMARY"):
                 for kv in l.split()[1:]:
                     k, _, v = kv.partition("=")
@@ -390,3 +394,53 @@ def replay(ctx, rp):
     print(res.num_out)
     bad = res.aborted() or "MISMATCH" in res.pipe_out or "PROPFAIL" in res.num_out
     return 1 if bad else 0
+
+
+# --------------------------------------------------------------------------
+# standard numeric campaign used by the per-property modules
+# --------------------------------------------------------------------------
+
+def numeric_campaign(ctx, props, want, n_quick, n_thorough, max_modes_quick=4, max_modes_thorough=5, trunc=False,
+                     symm_modes=("default", "default", "ignore", "custom"), allow=None, betas=(0.5, 1.0, 2.0, 5.0, 10.0),
+                     variants_thorough=("real", "complex"), nontrivial=None, extra=None, ngf=6, nchi=2, nsusc=2):
+    r = ctx.rng
+    thorough = ctx.tier == "thorough"
+    n = n_thorough if thorough else n_quick
+    variants = variants_thorough if thorough else ("real",)
+    for variant in variants:
+        scripts, metas = [], []
+        for k in range(n if variant == "real" else max(4, n // 3)):
+            mm = r.choice(list(range(2, (max_modes_thorough if thorough else max_modes_quick) + 1)))
+            kw = {}
+            if allow:
+                kw["allow"] = allow
+            m = gen_model(r, max_modes=mm, cplx=(variant == "complex"), **kw)
+            M = m.modes()
+            symm = r.choice(list(symm_modes))
+            symm_line = custom_integrals(r, m) if symm == "custom" else symm
+            beta = r.choice(list(betas))
+            order = r.below(2)
+            s = core_script(m, order=order, symm=symm_line)
+            s += observables_script(r, m, beta, M, want=want, ngf=ngf, nchi=(nchi if M <= 3 else 1), nsusc=nsusc,
+                                    ntriples=(4 if M <= 3 else 2))
+            if trunc:
+                eps = r.choice([0.0, 1e-12, 1e-6, 1e-3, 1e-2, 0.2])
+                s.append("trunc %s" % hx(eps))
+                s += [l for l in s if l.split()[0] in ("gf", "susc", "chi")][:6]
+            if extra:
+                s = extra(r, m, s)
+            scripts.append(s)
+            metas.append(dict(modes=M, sites=len(m.sites), symm=symm, beta=beta, order=order, kinds=sorted(m.kinds),
+                              quadratic=m.quadratic, variant=variant))
+        results = run_batch(scripts, variant)
+        collect(ctx, results, props)
+        for meta, s in zip(metas, scripts):
+            ctx.count("symm_" + meta["symm"])
+            ctx.count("modes_%d" % meta["modes"])
+            ctx.count("build_" + meta["variant"])
+            for kd in meta["kinds"]:
+                ctx.count("term_" + kd)
+            if nontrivial is None or nontrivial(meta, s):
+                ctx.distinct.add((meta["variant"], tuple(s)))
+            if len(ctx.samples) < 4:
+                ctx.samples.append(dict(meta=meta, script=s[:14]))
